@@ -379,4 +379,226 @@ theorem addVote_flag (R : List Reg) (p : Pool) (v : Vote) (h : FlagInv R p) : Fl
 theorem addCert_flag (R : List Reg) (p : Pool) (c : Cert) (h : FlagInv R p) : FlagInv R (p.addCert c).1 :=
   addCert_ind (FlagInv R) p c (fun s hp => hp.slotState s) (fun q hq => addValidCert_flag R c q hq) h
 
+/-! ### `add_block` -/
+
+theorem known_frame (q : Pool) (b : Nat × Nat) :
+    (q.known b).epoch = q.epoch ∧ (q.known b).fin = q.fin ∧ (q.known b).waiting = q.waiting := mod_frame q b.1 _
+
+/-- after `notify_parent_known` the block has an entry in its slot state -/
+theorem known_known (q : Pool) (b : Nat × Nat) :
+    ∃ st, (q.known b).getSlot b.1 = some st ∧ (st.parents.lookup b.2).isSome = true := by
+  obtain ⟨k1, k2, _⟩ := notifyParentKnown_spec (q.slotState b.1).2 b.2
+  refine ⟨_, ?_, k2⟩
+  unfold Pool.known
+  rw [getSlot_mod q b.1 _ (k1.trans (slotState_snd_slot q b.1)), if_pos rfl]
+
+theorem FlagOk.knownStep {q : Pool} {x : Reg} (h : FlagOk q none [] x) (b : Nat × Nat) : FlagOk (q.known b) none [] x := by
+  obtain ⟨k1, _, k3, _, k5⟩ := notifyParentKnown_spec (q.slotState b.1).2 b.2
+  unfold Pool.known
+  apply h.mod (k1.trans (slotState_snd_slot q b.1))
+  · intro y f hy; exact Or.inl (k3 y f hy)
+  · intro y hy; left; rw [← k5]; exact hy
+  · intro k hk; exact Or.inl hk
+
+theorem addBlockTail_flagOk (r : Pool) (b par : Nat × Nat) (e0 : List Event) (cert : Bool) {x : Reg}
+    (h : FlagOk r none [] x) : FlagOk (Pool.addBlockTail r b par e0 cert).1 none [] x := by
+  unfold Pool.addBlockTail
+  split
+  · split
+    · exact h.slotState b.1
+    · rename_i st' evs hn
+      obtain ⟨n1, n2, n3, n4⟩ := notifyParentCertified_spec hn
+      have hm : FlagOk ((r.slotState b.1).1.putSlot st') none [] x := by
+        apply h.mod (n1.trans (slotState_snd_slot r b.1))
+        · intro y f hy
+          rw [n3]
+          by_cases hyc : y = b.2
+          · right; simp only [hyc, if_true]; rw [hyc] at hy; rw [hy]; rfl
+          · left; simp only [hyc, if_false]; exact hy
+        · intro y hy; left; rw [← n4]; exact hy
+        · intro k hk; exact Or.inl hk
+      split
+      · exact hm.addWaiting par b
+      · exact hm
+  · exact h.addWaiting par b
+
+theorem addBlockTail_waitReg (R : List Reg) (r : Pool) (b par : Nat × Nat) (e0 : List Event) (cert : Bool)
+    (hb : (b, par) ∈ R) (hW : WaitReg R r) : WaitReg R (Pool.addBlockTail r b par e0 cert).1 := by
+  unfold Pool.addBlockTail
+  split
+  · split
+    · exact hW.of_waiting (slotState_frame r b.1).2.2
+    · rename_i st' evs hn
+      have hm : WaitReg R ((r.slotState b.1).1.putSlot st') := hW.of_waiting (mod_frame r b.1 st').2.2
+      split
+      · exact hm.addWaiting par b hb
+      · exact hm
+  · exact hW.addWaiting par b hb
+
+/-- the freshly registered pair satisfies the invariant, and `add_block` does not hit `parent not known` -/
+theorem addBlockTail_new (r : Pool) (b par : Nat × Nat) (e0 : List Event)
+    (hk : ∃ st, r.getSlot b.1 = some st ∧ (st.parents.lookup b.2).isSome = true) :
+    FlagOk (Pool.addBlockTail r b par e0 (r.certifiedB par)).1 none [] (b, par) ∧
+    (Event.panic ∉ e0 → Event.panic ∉ (Pool.addBlockTail r b par e0 (r.certifiedB par)).2) := by
+  obtain ⟨st0, hg0, hk0⟩ := hk
+  have hst0 : (r.slotState b.1).2 = st0 := slotState_snd_of_some hg0
+  have hwait : ∀ (q : Pool) (st : SlotState), q.getSlot b.1 = some st → (st.parents.lookup b.2).isSome = true →
+      (st.parents.lookup b.2 = some false → ¬ Held q par) → FlagOk (Pool.addWaiting q par b) none [] (b, par) := by
+    intro q st hg hs hnh _
+    refine ⟨st, by rw [getSlot_addWaiting]; exact hg, ?_⟩
+    cases hl : st.parents.lookup b.2 with
+    | none => rw [hl] at hs; cases hs
+    | some f =>
+      cases f with
+      | true => exact Or.inl rfl
+      | false =>
+        right
+        refine ⟨rfl, Or.inr ⟨by simp, fun hh => hnh hl (hh.of_getSlot (getSlot_addWaiting q par b)), (kidsOf_addWaiting q par b).2⟩⟩
+  unfold Pool.addBlockTail
+  split
+  · split
+    · rename_i hn
+      exfalso
+      rw [hst0] at hn
+      obtain ⟨st', evs, hn'⟩ := notifyParentCertified_isSome (e := (r.slotState b.1).1.epoch) hk0
+      rw [hn] at hn'; cases hn'
+    · rename_i st' evs hn
+      obtain ⟨n1, n2, n3, n4⟩ := notifyParentCertified_spec hn
+      have hsl : st'.slot = b.1 := n1.trans (slotState_snd_slot r b.1)
+      have htrue : st'.parents.lookup b.2 = some true := by
+        rw [n3]; simp only [if_true]
+        cases hh : (r.slotState b.1).2.parents.lookup b.2 with
+        | none => rw [hh] at n2; cases n2
+        | some _ => rfl
+      have hg' : ((r.slotState b.1).1.putSlot st').getSlot b.1 = some st' := by
+        rw [getSlot_mod r b.1 st' hsl, if_pos rfl]
+      have hev : ∀ ev ∈ evs, ev ≠ Event.panic := by
+        intro ev hev
+        unfold SlotState.notifyParentCertified at hn
+        split at hn
+        · cases hn
+        · dsimp only at hn
+          split at hn
+          · cases hn; cases hev
+          · cases hn
+            generalize (SlotState.checkS2N _ _ b.2).2 = res at hev
+            cases res <;> simp [s2nOut] at hev <;> subst hev <;> simp
+      split
+      · refine ⟨hwait _ st' hg' (by rw [htrue]; rfl) (fun hf => by rw [htrue] at hf; cases hf), fun h => h⟩
+      · refine ⟨fun _ => ⟨st', hg', Or.inl htrue⟩, fun h hm => ?_⟩
+        rcases List.mem_append.mp hm with hm | hm
+        · exact h hm
+        · exact hev _ hm rfl
+  · rename_i hc
+    refine ⟨hwait r st0 hg0 hk0 ?_, fun h => h⟩
+    intro _ hh
+    apply hc
+    obtain ⟨ps, hg, hi⟩ := hh
+    unfold Pool.certifiedB
+    rw [hg]; exact hi
+
+/-- the registrations an operation adds to the ghost list -/
+def regsOf (p : Pool) : PoolOp → List Reg
+  | .block b par => if accepted p b par then [(b, par)] else []
+  | _ => []
+
+theorem FlagInv.advance {R : List Reg} {p : Pool} (h : FlagInv R p) (t : Finality.Tracker) (r : ParentReady.Res)
+    (hm : p.fin.first ≤ t.first) : FlagInv R (p.advance t r) :=
+  ⟨h.1.advance t r, fun x hx => (h.2 x hx).advance t r hm (fun _ hk _ => hk)⟩
+
+theorem addBlock_flag (R : List Reg) (p : Pool) (b par : Nat × Nat) (h : FlagInv R p) :
+    FlagInv (R ++ regsOf p (.block b par)) (p.addBlock b par).1 := by
+  by_cases ha : accepted p b par
+  · have hR : R ++ regsOf p (.block b par) = R ++ [(b, par)] := by simp [regsOf, ha]
+    rw [hR]
+    have hbR : (b, par) ∈ R ++ [(b, par)] := by simp
+    -- the old pairs, and the waiting map
+    have hold : WaitReg (R ++ [(b, par)]) (p.addBlock b par).1 ∧ ∀ x ∈ R, FlagOk (p.addBlock b par).1 none [] x := by
+      apply addBlock_ind (fun q => WaitReg (R ++ [(b, par)]) q ∧ ∀ x ∈ R, FlagOk q none [] x) p b par (fun hn => absurd ha hn)
+      intro _ t r hm
+      have hq := h.advance t r hm
+      have hq1 : WaitReg (R ++ [(b, par)]) (p.advance t r) := hq.1.mono (fun x hx => by simp [hx])
+      refine ⟨fun _ e0 => ⟨?_, fun x hx => ?_⟩, fun _ => ⟨hq1, hq.2⟩⟩
+      · exact addBlockTail_waitReg _ _ b par e0 _ hbR (hq1.of_waiting (known_frame _ b).2.2)
+      · exact addBlockTail_flagOk _ b par e0 _ ((hq.2 x hx).knownStep b)
+    -- the new pair
+    have hnew : FlagOk (p.addBlock b par).1 none [] (b, par) := by
+      apply addBlock_ind (fun q => FlagOk q none [] (b, par)) p b par (fun hn => absurd ha hn)
+      intro _ t r _
+      refine ⟨fun _ e0 => (addBlockTail_new _ b par e0 (known_known _ b)).1, fun hlt hq => ?_⟩
+      rw [advance_fin] at hq
+      dsimp only at hq; omega
+    refine ⟨hold.1, fun x hx => ?_⟩
+    rcases List.mem_append.mp hx with hx | hx
+    · exact hold.2 x hx
+    · simp only [List.mem_singleton] at hx; subst hx; exact hnew
+  · have hR : R ++ regsOf p (.block b par) = R := by simp [regsOf, ha]
+    rw [hR]
+    exact addBlock_ind (FlagInv R) p b par (fun _ => h) (fun hn => absurd hn ha)
+
+/-! ### every reachable pool -/
+
+/-- ghost: the accepted registrations of a run, in order -/
+def regsRun (p : Pool) : List PoolOp → List Reg
+  | [] => []
+  | op :: ops => regsOf p op ++ regsRun (poolStep p op).1 ops
+
+theorem poolStep_flag (R : List Reg) (p : Pool) (op : PoolOp) (h : FlagInv R p) :
+    FlagInv (R ++ regsOf p op) (poolStep p op).1 := by
+  cases op with
+  | vote v => simp only [regsOf, List.append_nil, poolStep]; exact addVote_flag R p v h
+  | cert c => simp only [regsOf, List.append_nil, poolStep]; exact addCert_flag R p c h
+  | block b par => exact addBlock_flag R p b par h
+
+theorem poolRun_flag (ops : List PoolOp) (R : List Reg) (p : Pool) (h : FlagInv R p) :
+    FlagInv (R ++ regsRun p ops) (poolRun p ops).1 := by
+  induction ops generalizing R p with
+  | nil => simp only [regsRun, List.append_nil, poolRun]; exact h
+  | cons op ops ih =>
+    simp only [regsRun, poolRun, ← List.append_assoc]
+    exact ih _ _ (poolStep_flag R p op h)
+
+theorem FlagInv.init (e : Epoch) : FlagInv [] { epoch := e } :=
+  ⟨fun _ _ hm => by simp at hm, fun _ hr => by simp at hr⟩
+
+theorem poolRun_append (p : Pool) (a b : List PoolOp) :
+    poolRun p (a ++ b) = ((poolRun (poolRun p a).1 b).1, (poolRun p a).2 ++ (poolRun (poolRun p a).1 b).2) := by
+  induction a generalizing p with
+  | nil => simp [poolRun]
+  | cons op a ih => simp only [List.cons_append, poolRun, ih, List.append_assoc]
+
+theorem regsRun_append (p : Pool) (a b : List PoolOp) :
+    regsRun p (a ++ b) = regsRun p a ++ regsRun (poolRun p a).1 b := by
+  induction a generalizing p with
+  | nil => simp [regsRun, poolRun]
+  | cons op a ih => simp only [List.cons_append, regsRun, poolRun, ih, List.append_assoc]
+
+/-- a registration `.block b par` in the op list that the tracker accepted is in the ghost list -/
+theorem mem_regsRun (p : Pool) (pre post : List PoolOp) (b par : Nat × Nat) (ha : accepted (poolRun p pre).1 b par) :
+    (b, par) ∈ regsRun p (pre ++ .block b par :: post) := by
+  rw [regsRun_append]
+  apply List.mem_append_right
+  simp [regsRun, regsOf, ha]
+
+/-- and conversely: the ghost list holds nothing else -/
+theorem regsRun_mem (ops : List PoolOp) (p : Pool) (x : Reg) (hx : x ∈ regsRun p ops) :
+    ∃ pre post, ops = pre ++ .block x.1 x.2 :: post ∧ accepted (poolRun p pre).1 x.1 x.2 := by
+  induction ops generalizing p with
+  | nil => simp [regsRun] at hx
+  | cons op ops ih =>
+    simp only [regsRun, List.mem_append] at hx
+    rcases hx with hx | hx
+    · cases op with
+      | vote v => simp [regsOf] at hx
+      | cert c => simp [regsOf] at hx
+      | block b par =>
+        simp only [regsOf] at hx
+        split at hx
+        · rename_i ha
+          simp only [List.mem_singleton] at hx; subst hx
+          exact ⟨[], ops, rfl, ha⟩
+        · cases hx
+    · obtain ⟨pre, post, he, ha⟩ := ih _ hx
+      exact ⟨op :: pre, post, by rw [he]; rfl, ha⟩
+
 end AgModel.Pool
